@@ -4,7 +4,7 @@
    correspondence runs of harness/cmd/c16. *)
 From Coq Require Import List Arith Bool.
 Import ListNotations.
-From GU Require Import C16.Model C16.ProofsA C16.ProofsS C16.Proofs.
+From GU Require Import C16.Model C16.ProofsBase C16.ProofsA C16.ProofsS C16.ProofsF C16.ProofsL C16.ProofsI C16.ProofsJ C16.Proofs.
 
 (* Both cache kinds (p_kind), any number of clients and of stored versions (ops), EVERY schedule at backend micro-step
    granularity, with any fault (error / short write / crash / crash after a partial write) at any step of any client and
@@ -34,22 +34,46 @@ Theorem mutable_transfers_exclusive : forall (P : params) (ops : list opk) (sche
 Proof. exact mutable_transfers_exclusive_l. Qed.
 Print Assumptions mutable_transfers_exclusive.
 
-(* FULL statement wanted (store_success_visible): for both cache kinds, a Store that reports success — whatever backend
-   operations failed while it ran — leaves the entry such that every later Fetch that reports success returns its version,
-   and a fault-free Fetch does report success, until the next Store.
-   PROVED here: the Store half for the mutable cache — for every entry state, every client and EVERY sequence of faults
-   (one arbitrary fault or none at each micro-step: error, short write), a Store of v that reports success leaves exactly
-   the complete package of v as cache.zip.  MISSING: the Fetch half in general (a fault-free Fetch of an entry whose
-   cache.zip is complete succeeds whatever the side file says — shown on the D21 witness by
-   c16_fixed_code_recovers_from_stale_hash and exercised by the harness at every backend operation), and the immutable
-   cache (needs the modification-time order of the package files). *)
-Theorem store_success_visible_partial : forall (P : params) (v : ver) (u c : nat) (fs : list fault) (R : remote),
-  p_kind P = Mutable ->
-  let '(R', L') := run_faults P c fs R (new_client P (OStore v u)) in
-  c_pc L' = Done Ok -> content Cache R' = Some (full P v).
-Proof. exact store_success_leaves_complete_package_l. Qed.
-Print Assumptions store_success_visible_partial.
+(* store_success_visible, mutable cache (repaired code: re-hash on mismatch).  For EVERY entry state R, every client and
+   EVERY sequence of faults fs (an arbitrary fault or none at each micro-step) under which a Store of v reports success:
+     - the lock is free again, and
+     - for EVERY sequence of later Fetch / CleanEntry calls (each by a fresh client, each with an arbitrary fault or crash at
+       every micro-step): every Fetch among them that reports success has installed v, and
+     - afterwards, provided the lock is free (it is not if one of those calls died or failed while holding it: then after
+       CleanEntry), a fault-free Fetch DOES report success and installs v — whatever the side file says.
+   "Until the next Store": the later calls contain no Store. *)
+Theorem store_success_visible_mutable : forall (P : params) (v : ver) (u c : nat) (fs : list fault) (R : remote) (calls : list call),
+  p_kind P = Mutable -> p_rehash P = true ->
+  let '(R1, L1) := run_faults P c fs R (new_client P (OStore v u)) in
+  c_pc L1 = Done Ok ->
+  r_lock R1 = LFree /\
+  let '(R2, Ls) := run_calls P R1 calls in
+  (forall L, In L Ls -> fetch_ok L = true -> c_dest L = DInst v) /\
+  (r_lock R2 = LFree -> forall c',
+     let L' := snd (run_faults P c' (repeat NoF 12) R2 (new_client P OFetch)) in
+     c_pc L' = Done Ok /\ c_dest L' = DInst v).
+Proof. exact store_success_visible_mutable_l. Qed.
+Print Assumptions store_success_visible_mutable.
 
+(* store_success_visible, immutable cache.  For every entry state, client and EVERY sequence of faults under which a Store
+   of v (package name u) reports success: the complete package of v is in place under its final name; and IF it is the most
+   recent package in the listing by modification time (explicit hypothesis [newest]: modification times follow real time —
+   they are the back end's, not the library's), then for every sequence of later Fetch calls with arbitrary faults / crashes
+   every Fetch that reports success has installed v, and a fault-free Fetch does report success and installs v.
+   Not covered: CleanEntry calls in between (they remove only OLDER packages: harness only). *)
+Theorem store_success_visible_immutable : forall (P : params) (v : ver) (u c : nat) (fs : list fault) (R : remote)
+    (calls : list (nat * list fault)),
+  p_kind P = Immutable -> p_rehash P = true ->
+  let '(R1, L1) := run_faults P c fs R (new_client P (OStore v u)) in
+  c_pc L1 = Done Ok ->
+  content (Pkg u) R1 = Some (full P v) /\
+  (newest u R1 ->
+   let '(R2, Ls) := run_fetches P R1 calls in
+   (forall L, In L Ls -> fetch_ok L = true -> c_dest L = DInst v) /\
+   (forall c', let L' := snd (run_faults P c' (repeat NoF 12) R2 (new_client P OFetch)) in
+               c_pc L' = Done Ok /\ c_dest L' = DInst v)).
+Proof. exact store_success_visible_immutable_l. Qed.
+Print Assumptions store_success_visible_immutable.
 (* The hypothesis cannot be dropped: if a proper prefix of a package unzips, a crash of the first Store right after that
    prefix lets a later Fetch report success with a tree that was never stored. *)
 Theorem zip_integrity_hypothesis_is_necessary :
@@ -81,6 +105,14 @@ Proof.
   vm_compute. intuition discriminate.
 Qed.
 Print Assumptions fetch_timeout_destroys_foreign_lock_refuted_with_defer_first.
+
+(* non-vacuity of the hypothesis [newest]: after two fault-free Stores the second package is first in the listing *)
+Example c16_newest_satisfiable :
+  let P := P_of Immutable false true in
+  let R1 := fst (run_faults P 0 (repeat NoF 30) remote0 (new_client P (OStore 0 0))) in
+  let R2 := fst (run_faults P 1 (repeat NoF 30) R1 (new_client P (OStore 1 1))) in
+  newest 1 R2.
+Proof. vm_compute. eexists. eexists. reflexivity. Qed.
 
 (* non-vacuity *)
 Example c16_nonvacuous :
